@@ -193,13 +193,17 @@ func c08Repo() (*mrepo.Repo, map[string]mrepo.ID) {
 	r.SetRef("refs/tags/tb", tb)
 	r.SetRef("refs/tags/tt", tt)
 	r.SetRef("refs/tags/tbl", tbl)
+	// ambiguous short names: a tag called like a branch, pointing elsewhere
+	r.SetRef("refs/tags/other", c0)
+	r.SetRef("refs/heads/v1", c2)
+	r.SetRef("refs/tags/v1", ta)
 	r.Head = "ref: refs/heads/main"
 	return r, map[string]mrepo.ID{"c1": c1, "blobC": lv.BlobC, "t1": t1}
 }
 
 func c08Specs(ids map[string]mrepo.ID) []rootSpec {
 	specs := []rootSpec{}
-	for _, ref := range []string{"refs/heads/main", "refs/heads/other", "refs/tags/lwc", "refs/tags/lwt", "refs/tags/lwb", "refs/tags/ta", "refs/tags/tb", "refs/tags/tt", "refs/tags/tbl"} {
+	for _, ref := range []string{"refs/heads/main", "refs/heads/other", "refs/heads/v1", "refs/tags/lwc", "refs/tags/lwt", "refs/tags/lwb", "refs/tags/ta", "refs/tags/tb", "refs/tags/tt", "refs/tags/tbl"} {
 		specs = append(specs, rootSpec{ref: ref})
 	}
 	for _, root := range []string{string(ids["c1"]), "main", "main^{tree}", "main:", "main:d", "ta^{}", "refs/tags/tt^{tree}", string(ids["blobC"]), "HEAD", "tb^{commit}", string(ids["t1"]), "main~1"} {
